@@ -50,7 +50,8 @@ def c07(c):
     c.require('fuzz_inputs', 100)
     for k in ('refinements', 'equi_boundaries_checked', 'all_zero_refinements', 'calls_checked', 'zero_iterations', 'scripted_runs',
               'scripted_u_zero', 'scripted_u_max', 'icdf_extreme_calls', 'adaptive_runs', 'icdf_calls_in_more_than_8_dimensions',
-              'mpi_vegas_runs', 'mpi_rank_iterations_with_only_zeros_while_others_non-zero', 'in_run_next_grids_judged_for_equidistribution'):
+              'mpi_vegas_runs', 'mpi_rank_iterations_with_only_zeros_while_others_non-zero', 'in_run_next_grids_judged_for_equidistribution',
+              'dims_without_information_checked_unchanged'):
         c.require(k)
 
 
@@ -69,7 +70,8 @@ def c08(c):
            dict(src='c08_weights.cpp', build='clang', shards={'quick': 1, 'thorough': 5}, tiers=('thorough',), extra_inc=SHIM, libs=['-pthread']),
            dict(src='c08_weights.cpp', build='fuzz', shards={'quick': 1, 'thorough': 4}, fuzz_runs={'quick': 3000, 'thorough': 200000}, extra_inc=SHIM, libs=['-pthread'])])
     c.require('fuzz_inputs', 100)
-    for k in ('refinements', 'vectors_checked', 'all_zero_data', 'channels_ratio_judged', 'adaptive_runs', 'run_vectors_checked', 'zero_iterations', 'mpi_runs', 'used_weights_judged_against_previous_result', 'runs_started_from_reloaded_initial_checkpoint', 'runs_with_a_cut_where_all_densities_vanish'):
+    for k in ('refinements', 'vectors_checked', 'all_zero_data', 'channels_ratio_judged', 'adaptive_runs', 'run_vectors_checked', 'zero_iterations', 'mpi_runs', 'used_weights_judged_against_previous_result', 'runs_started_from_reloaded_initial_checkpoint', 'runs_with_a_cut_where_all_densities_vanish', 'runs_with_non-finite_integrand_values', 'runs_with_a_distribution',
+              'mpi_iterations_with_about_as_many_calls_as_ranks'):
         c.require(k)
 
 
